@@ -91,6 +91,8 @@ class Ctx:
         self.fresh_refs = []       # refs of SMT objects/lists allocated on this path
         self.no_branch = 0
         self.merge_fresh = set()
+        self.keep_ids = set()      # ids of heap-frame facts (glue between heap versions): survive loop-cut resets
+        self.kept = []
         self.entry_addr = None     # concrete-heap addresses below this existed at function entry (frame conditions)
         self.base_len = None       # length of pc after requires/definitions: facts before it survive loop cuts
         self.literals = set()
